@@ -5,12 +5,14 @@ With --jobs N: each change gets its own scratch worktree of /repo's HEAD under /
 pointing at it, build/evidence/replays redirected with CFDP_VERIF_OUT), N changes at a time, /repo itself untouched;
 worktree and outputs are removed afterwards."""
 import json
+import os
 import subprocess
 import sys
 import time
 from pathlib import Path
 
 VERIF = Path(__file__).resolve().parent.parent
+VERIF_RUN = VERIF
 
 
 def sh(cmd, **kw):
@@ -45,7 +47,7 @@ def one_scratch(d, run, tier):
         env = dict(os.environ, CFDP_REPO=str(wt), CFDP_VERIF_OUT=str(out))
         for p in run:
             t0 = time.time()
-            c = sh(f"./check {p} --tier {tier}", cwd=VERIF, timeout=5400, env=env)
+            c = sh(f"./check {p} --tier {tier}", cwd=VERIF_RUN, timeout=5400, env=env)
             res[(d.name, p)] = report(d.name, p, c, t0)
     finally:
         sh(f"git -C /repo worktree remove --force {wt}")
@@ -80,11 +82,18 @@ def main():
                   and (not ids or any(d.name.startswith(i) for i in ids)))
     results = {}
     if jobs:
+        # the checks run from a private snapshot of /verif, so that /verif can be edited while a long matrix runs
+        global VERIF_RUN
+        snap = Path(f"/tmp/mutsnap_{os.getpid()}")
+        sh(f"rm -rf {snap} && mkdir -p {snap} && rsync -a --exclude build --exclude replays --exclude evidence --exclude .git "
+           f"--exclude seeded --exclude benign --exclude .scratch {VERIF}/ {snap}/")
+        VERIF_RUN = snap
         from concurrent.futures import ThreadPoolExecutor
         with ThreadPoolExecutor(jobs) as ex:
             for part in ex.map(lambda d: one_scratch(d, props or (claimed if allc else [d.name.split("-")[0]]), tier), dirs):
                 results.update(part)
         dirs = []
+        sh(f"rm -rf {snap}")
     else:
         assert sh("git -C /repo status --porcelain").stdout.strip() == "", "repo not clean"
     for d in dirs:
